@@ -115,9 +115,9 @@ theorem c15_recase (kc : KwCase) (t : Tok) :
 
 /-- A line inside a block comment is emitted unchanged (only a trailing CR is normalised). -/
 theorem c15_verbatim_block (cfg : Config) (st : St) (l : LineIn) (h : l.inBlockComment = true) :
-    ∃ o st', stepLine cfg st l = some (o, st') ∧ o.text = l.text ∧ o.skipAlign = true := by
+    ∃ o st', stepLine cfg st l = some (o, st') ∧ o.text = l.text ∧ o.verbatim = true := by
   unfold stepLine
-  simp [h, skipAlignOf]
+  simp [h, skipAlignOf, OutLine.verbatim]
 
 /-- A line that carries a line comment or a pragma is emitted as indentation followed by the trimmed
 source line: nothing between its first and last non-blank character is touched, and the alignment and
@@ -158,6 +158,36 @@ theorem c15_verbatim_wrap (unit : Text) (m : Nat) (o : OutLine) (h : o.skipAlign
   unfold wrapLine
   rw [h]
   split <;> rfl
+
+/-- Clause 1 for comments and pragmas at document level: every line the per-line pass marked verbatim
+(`c15_verbatim_block`, `c15_verbatim_line`: block-comment lines, lines with a line comment or a pragma) is
+in the final output with exactly the text the per-line pass gave it, in the same order — the colon
+alignment, the assignment alignment and the wrapping pass (whatever the configuration) never touch,
+split, drop or reorder these lines. -/
+theorem c15_verbatim_document (cfg : Config) (ls : List OutLine) :
+    ((ls.filter (·.verbatim)).map (·.text)).Sublist (finalLines cfg ls) := by
+  have hrel := rel_alignedLines cfg ls
+  rw [hrel.filter_verbatim]
+  unfold finalLines
+  split
+  · rename_i m _
+    unfold wrapLongLines
+    apply sublist_filter_flatMap
+    intro x hx
+    have hs : x.skipAlign = true := by
+      unfold OutLine.verbatim at hx
+      simp only [Bool.and_eq_true] at hx
+      exact hx.1
+    exact c15_verbatim_wrap _ _ x hs
+  · exact (List.filter_sublist).map _
+
+/-- non-vacuity: a comment line between two assignments that get aligned (wrapping switched on) -/
+example :
+    finalLines { cfgDefault with maxLen := some 10 }
+      [ { text := txt "x := 1;", inVar := false, skipAlign := false },
+        { text := txt "// a, b, c, d, e", inVar := false, skipAlign := true },
+        { text := txt "long_name := f(a, b);", inVar := false, skipAlign := false } ] =
+      [txt "x := 1;", txt "// a, b, c, d, e", txt "long_name := f(a,", txt "    b);"] := by decide
 
 /-! ## Clause 4, the web IDE formatter -/
 
